@@ -48,7 +48,7 @@ var obsEvCalls = []string{"verify", "ev.json", "ev.instid", "ev.implid"}
 
 func (obsWorld) Gen(prop, tier string, idx int, r *Rng) *Trace {
 	var cfg ObsCfg
-	fams := []string{"p1", "p2", "p1", "p2", "xp2", "xp1"}
+	fams := []string{"p1", "p2", "p1", "p2", "xp2", "xp1", "xw"}
 	nClaims := r.Range(2, 5)
 	for i := 0; i < nClaims; i++ {
 		pf := fams[r.Intn(len(fams))]
@@ -725,6 +725,8 @@ func (obsWorld) Exec(prop string, t *Trace) *Result {
 			fam = "xp1"
 		case *XP2Claims:
 			fam = "xp2"
+		case *XWClaims:
+			fam = "xw"
 		}
 		repop := func(c psatoken.IClaims) string {
 			return safely(func() string {
